@@ -278,6 +278,10 @@ pub(crate) fn observe_msg(m: &UpdateMessage<&[u8]>, bound: usize) -> String {
             Community::Ipv6Extended(c) => hex(&c.to_raw()), Community::Large(c) => hex(&c.to_raw()),
         }).collect::<Vec<_>>().join(";"))
     }));
+    // how an iterator is consumed must not matter (common::iter_protocol): `ok`, or the first consumption
+    // (count / last / nth / skip / step_by / size_hint / by_ref-then-rest / peekable ..) of one of the
+    // iterators above that panicked or did not observe the next() sequence
+    put("proto", grp(|| proto_of_msg(m, bound)));
     format!("ok {}", g.join(" | "))
 }
 
@@ -324,6 +328,7 @@ pub(crate) fn judge_c02(line: &str, reply: &str) -> Result<(), String> {
         let (name, val) = g.split_once('=').ok_or("malformed group")?;
         if val == "panic" || val.ends_with(":panic") { return Err(format!("accessor group `{}` panicked on an accepted message", name)); }
         if val.contains("+hang") { return Err(format!("iterator of group `{}` yields more items than the message has octets", name)); }
+        if name == "proto" { proto_judge(g)?; }
     }
     // an item-level error is the last item of its section's iterator; item counts are bounded
     let check_list = |name: &str, s: &str| -> Result<(), String> {
@@ -692,4 +697,97 @@ impl Prop for C02 {
         } else { reply };
         format!("w{}:{}:{}", width, ap, r)
     }
+}
+
+//------------ iterator protocol ---------------------------------------------------
+
+fn sh_res<T, E>(sh: impl Fn(&T) -> String) -> impl Fn(&Result<T, E>) -> String {
+    move |x| match x { Ok(n) => sh(n), Err(_) => "E".to_string() }
+}
+
+/// the labels of an MPLS / MPLS-VPN NLRI
+fn labels_of<'a>(n: &'a Nlri<&'a [u8]>) -> Option<&'a routecore::bgp::nlri::mpls::Labels<&'a [u8]>> {
+    Some(match n {
+        Nlri::Ipv4MplsUnicast(x) => x.nlri().labels(), Nlri::Ipv4MplsUnicastAddpath(x) => x.nlri().labels(),
+        Nlri::Ipv6MplsUnicast(x) => x.nlri().labels(), Nlri::Ipv6MplsUnicastAddpath(x) => x.nlri().labels(),
+        Nlri::Ipv4MplsVpnUnicast(x) => x.nlri().labels(), Nlri::Ipv4MplsVpnUnicastAddpath(x) => x.nlri().labels(),
+        Nlri::Ipv6MplsVpnUnicast(x) => x.nlri().labels(), Nlri::Ipv6MplsVpnUnicastAddpath(x) => x.nlri().labels(),
+        _ => return None,
+    })
+}
+
+macro_rules! typed_proto {
+    ($p:expr, $m:expr, $meth:ident, $tag:literal, $bound:expr, [$($name:literal => $t:ty),+ $(,)?]) => {{
+        $(
+            if let Ok(Some(_)) = $m.$meth::<_, $t>() {
+                $p.it(concat!($tag, ":", $name), || $m.$meth::<_, $t>().ok().flatten().unwrap(),
+                    sh_res(|n: &$t| show_nlri(&Nlri::from(n.clone()))), $bound);
+            }
+        )+
+    }};
+}
+
+macro_rules! typed_proto_all {
+    ($p:expr, $m:expr, $meth:ident, $tag:literal, $bound:expr) => {
+        typed_proto!($p, $m, $meth, $tag, $bound, [
+            "Ipv4Unicast" => Ipv4UnicastNlri, "Ipv4UnicastAddpath" => Ipv4UnicastAddpathNlri,
+            "Ipv4Multicast" => Ipv4MulticastNlri, "Ipv4MulticastAddpath" => Ipv4MulticastAddpathNlri,
+            "Ipv4MplsUnicast" => Ipv4MplsUnicastNlri<_>, "Ipv4MplsUnicastAddpath" => Ipv4MplsUnicastAddpathNlri<_>,
+            "Ipv4MplsVpnUnicast" => Ipv4MplsVpnUnicastNlri<_>, "Ipv4MplsVpnUnicastAddpath" => Ipv4MplsVpnUnicastAddpathNlri<_>,
+            "Ipv4RouteTarget" => Ipv4RouteTargetNlri<_>, "Ipv4RouteTargetAddpath" => Ipv4RouteTargetAddpathNlri<_>,
+            "Ipv4FlowSpec" => Ipv4FlowSpecNlri<_>, "Ipv4FlowSpecAddpath" => Ipv4FlowSpecAddpathNlri<_>,
+            "Ipv6Unicast" => Ipv6UnicastNlri, "Ipv6UnicastAddpath" => Ipv6UnicastAddpathNlri,
+            "Ipv6Multicast" => Ipv6MulticastNlri, "Ipv6MulticastAddpath" => Ipv6MulticastAddpathNlri,
+            "Ipv6MplsUnicast" => Ipv6MplsUnicastNlri<_>, "Ipv6MplsUnicastAddpath" => Ipv6MplsUnicastAddpathNlri<_>,
+            "Ipv6MplsVpnUnicast" => Ipv6MplsVpnUnicastNlri<_>, "Ipv6MplsVpnUnicastAddpath" => Ipv6MplsVpnUnicastAddpathNlri<_>,
+            "Ipv6FlowSpec" => Ipv6FlowSpecNlri<_>, "Ipv6FlowSpecAddpath" => Ipv6FlowSpecAddpathNlri<_>,
+            "L2VpnVpls" => L2VpnVplsNlri, "L2VpnVplsAddpath" => L2VpnVplsAddpathNlri,
+            "L2VpnEvpn" => L2VpnEvpnNlri<_>, "L2VpnEvpnAddpath" => L2VpnEvpnAddpathNlri<_>,
+        ])
+    };
+}
+
+/// `ok`, or `<iterator>:<first failing consumption>`: common::iter_protocol on every iterator an accepted
+/// UPDATE hands out (attribute iterators checked and unchecked, the NLRI iterators of both sections - enum,
+/// chained and typed per family -, the community iterators in both flavours, the family iterators, the
+/// labels of the MPLS NLRI, hops / segments / asns of AS_PATH and AS4_PATH).  Each is made afresh for
+/// every consumption; only accessors that returned Ok in the groups above are asked again.
+pub(crate) fn proto_of_msg(m: &UpdateMessage<&[u8]>, bound: usize) -> String {
+    use routecore::bgp::path_attributes::UncheckedPathAttributes;
+    let mut p = Proto::new();
+    if !p.on() { return p.value(); }
+    if m.path_attributes().is_ok() {
+        p.itc("path_attributes", || m.path_attributes().ok().unwrap(), sh_res(|w: &routecore::bgp::path_attributes::WireformatPathAttribute<'_, &[u8]>| {
+            let owned = match w.to_owned() { Ok(pa) => show_rc(&pa), Err(_) => "owned-err".into() };
+            format!("{}:{}:{}:{}", u8::from(w.flags()), w.type_code(), w.length(), owned)
+        }), bound);
+        // the iterator behind mp_* / typed_* / next-hop lookups (private accessor, public type and constructor)
+        p.it("unchecked_path_attributes", || UncheckedPathAttributes::from_parser(m.path_attributes().ok().unwrap().parser),
+            |e| format!("{}:{}:{}:{}", u8::from(e.flags()), e.type_code(), e.length(), hex(e.value_into_parser().peek_all())), bound);
+    }
+    if m.conventional_withdrawals().is_ok() { p.it("conventional_withdrawals", || m.conventional_withdrawals().ok().unwrap(), sh_res(show_nlri), bound); }
+    if m.conventional_announcements().is_ok() { p.it("conventional_announcements", || m.conventional_announcements().ok().unwrap(), sh_res(show_nlri), bound); }
+    if let Ok(Some(_)) = m.mp_withdrawals() { p.it("mp_withdrawals", || m.mp_withdrawals().ok().flatten().unwrap(), sh_res(show_nlri), bound); }
+    if let Ok(Some(_)) = m.mp_announcements() { p.it("mp_announcements", || m.mp_announcements().ok().flatten().unwrap(), sh_res(show_nlri), bound); }
+    if m.withdrawals().is_ok() { p.it("withdrawals", || m.withdrawals().ok().unwrap(), sh_res(show_nlri), 2 * bound); }
+    if m.announcements().is_ok() { p.it("announcements", || m.announcements().ok().unwrap(), sh_res(show_nlri), 2 * bound); }
+    typed_proto_all!(p, m, typed_withdrawals, "typed_withdrawals", bound);
+    typed_proto_all!(p, m, typed_announcements, "typed_announcements", bound);
+    p.it("announcement_fams", || m.announcement_fams(), |t| nlri_type_name(*t), 4);
+    p.it("withdrawal_fams", || m.withdrawal_fams(), |t| nlri_type_name(*t), 4);
+    if let Ok(Some(_)) = m.communities() {
+        p.it("communities", || m.communities().ok().flatten().unwrap(), |c| hex(&c.to_raw()), bound);
+        p.it("human_readable_communities", || m.human_readable_communities().ok().flatten().unwrap(), |c| format!("{:?}", c).replace(' ', ""), bound);
+    }
+    if let Ok(Some(_)) = m.ext_communities() { p.it("ext_communities", || m.ext_communities().ok().flatten().unwrap(), |c| hex(&c.to_raw()), bound); }
+    if let Ok(Some(_)) = m.ipv6_ext_communities() { p.it("ipv6_ext_communities", || m.ipv6_ext_communities().ok().flatten().unwrap(), |c| hex(&c.to_raw()), bound); }
+    if let Ok(Some(_)) = m.large_communities() { p.it("large_communities", || m.large_communities().ok().flatten().unwrap(), |c| hex(&c.to_raw()), bound); }
+    // labels of the first MPLS NLRI of either section
+    for (name, first) in [("labels(withdrawal)", m.withdrawals().ok().and_then(|mut it| it.find_map(|r| r.ok().filter(|n| labels_of(n).is_some())))),
+                          ("labels(announcement)", m.announcements().ok().and_then(|mut it| it.find_map(|r| r.ok().filter(|n| labels_of(n).is_some()))))] {
+        if let Some(n) = first { if let Some(l) = labels_of(&n) { p.it(name, || l.iter(), |x| format!("{:?}", x).replace(' ', ""), bound); } }
+    }
+    if let Ok(Some(path)) = m.aspath() { crate::props::c13::proto_path!(&mut p, "aspath", &path); }
+    if let Ok(Some(path)) = m.as4path() { crate::props::c13::proto_path!(&mut p, "as4path", &path); }
+    p.value()
 }
